@@ -261,6 +261,42 @@ def factory_case(cid, which, rng):
                     if np.array_equal(H[a], H[b]):
                         okk = okk and bool(np.allclose(E[r_], 1.0 + 2.0 * (H[a][:, None] * u).sum(0), atol=1e-9))
                 case["dataok"] = bool(okk)
+            elif which == "ohv.from_pgmat_gpmod":
+                # identical inbred lines on a map with marker deserts (equal-width blocks stay empty): whatever the blocks
+                # are, the optimal haploid value of any cross of clones is the clone's own value; with distinct lines it
+                # lies between the better parent and the marker-wise optimum
+                from pybrops.popgen.gmat.DensePhasedGenotypeMatrix import DensePhasedGenotypeMatrix
+                cls = get("OptimalHaploidValueSelectionProblem", "OptimalHaploidValueSubsetSelectionProblem")
+                pm = rng.randrange(5, 9)
+                clones = rng.random() < 0.5
+                H = np.array([[rng.randrange(2) for _ in range(pm)] for _ in range(n)], dtype="int8")
+                if clones:
+                    H[:] = H[0]
+                gp = sorted(rng.choice([0.0, 0.0, 0.01, 0.02, 0.03, 0.5, 0.95, 1.0, 1.0]) for _ in range(pm))
+                gp[0] = 0.0; gp[-1] = 1.0
+                pg = DensePhasedGenotypeMatrix(np.stack([H, H]), taxa=np.array(names, dtype=object), taxa_grp=np.zeros(n, dtype="int64"),
+                                               vrnt_chrgrp=np.ones(pm, dtype="int64"), vrnt_phypos=np.arange(1, pm + 1, dtype="int64"),
+                                               vrnt_genpos=np.array(gp), vrnt_xoprob=np.array([0.5] + [0.1] * (pm - 1)))
+                pg.group_vrnt()
+                from pybrops.model.gmod.DenseAdditiveLinearGenomicModel import DenseAdditiveLinearGenomicModel as ADD_
+                uu = np.array([[rng.choice([-2, -1, 1, 2, 3]) for _ in range(T)] for _ in range(pm)], dtype=float)
+                md = ADD_(beta=np.zeros((1, T)), u_misc=None, u_a=uu, trait=np.array(["t%d" % t for t in range(T)], dtype=object))
+                uniq = rng.random() < 0.5
+                nblk = rng.randrange(2, pm + 1)
+                try:
+                    pr = cls.from_pgmat_gpmod(2, nblk, uniq, pg, md, ndecn=2, decn_space=np.arange(3), decn_space_lower=np.repeat(0, 2),
+                                              decn_space_upper=np.repeat(2, 2), nobj=T)
+                except (ValueError, RuntimeError):
+                    pr = None                     # more blocks than markers on a chromosome: refused by the library
+                if pr is not None:
+                    O = np.asarray(pr.ohvmat, dtype=float); xm = np.asarray(pr.decn_space_xmap)
+                    okk = O.shape == (len(xm), T) and bool(np.all(np.isfinite(O)))
+                    val = 2.0 * (H[:, :, None] * uu[None, :, :]).sum(1)            # (n, T) value of each inbred line
+                    for r_ in range(len(xm) if okk else 0):
+                        a, b = int(xm[r_][0]), int(xm[r_][1])
+                        best = 2.0 * np.maximum(H[a][:, None] * uu, H[b][:, None] * uu).sum(0)
+                        okk = okk and bool(np.all(O[r_] >= np.maximum(val[a], val[b]) - 1e-9) and np.all(O[r_] <= best + 1e-9))
+                    case["dataok"] = bool(okk)
             elif which == "mgr.from_gmat":
                 cls = get("MeanGenomicRelationshipSelectionProblem", "MeanGenomicRelationshipSubsetSelectionProblem")
                 pr = cls.from_gmat(gm, DenseMolecularCoancestryMatrixFactory(), nobj=1, **sp)
@@ -295,7 +331,7 @@ def run(ctx):
             allc.append(one_case(len(allc) + 1, fam, rng, ksel=ksel))
     for _ in range(reps * 2):
         allc.append(pafd_case(len(allc) + 1, rng))
-    for which in ("ebv.from_bvmat", "gebv.from_gmat_gpmod", "ocs.from_bvmat_gmat", "mgr.from_gmat", "embv.from_pgmat_gpmod"):
+    for which in ("ebv.from_bvmat", "gebv.from_gmat_gpmod", "ocs.from_bvmat_gmat", "mgr.from_gmat", "embv.from_pgmat_gpmod", "ohv.from_pgmat_gpmod"):
         for _ in range(reps):
             allc.append(factory_case(len(allc) + 1, which, rng))
     verd = cases.validate(ctx, "SelObjective_Trace", "SelObjective_Trace.cfg",
